@@ -10,7 +10,7 @@
    joined s n m rel = the store has an edge of relation rel between n and m;  find_node = _find_node
    (exactly one node of that graph with that NodeID, else the call raises). *)
 From Coq Require Import List NArith ZArith Bool.
-From FIM Require Import Gen.Query6Gen Model.Query6 Proofs.Query6Nbr Proofs.Query6Path Proofs.Query6Api Proofs.Query6Gen Proofs.Query6Own.
+From FIM Require Import Gen.Query6Gen Model.Query6 Model.Query6Check Model.Query6Hist Proofs.Query6Hist Proofs.Query6Nbr Proofs.Query6Path Proofs.Query6Api Proofs.Query6Gen Proofs.Query6Own.
 Import ListNotations.
 Open Scope N_scope.
 
@@ -249,6 +249,37 @@ Example C06_cross_graph_example :
   /\ shortest_path cross_store 1 2 5 None = Err /\ shortest_path cross_store 1 2 1 None = Ok [2; 1]
   /\ first_neighbor cross_store 2 5 2 5 = Ok [6] /\ first_neighbor cross_store 2 6 2 6 = Ok [5].
 Proof. vm_compute. repeat split. Qed.
+
+(* ------------------------------------------------------------------------------------------------- *)
+(* query histories (Model/Query6Hist.v).  Queries and mutations may be issued through any number of graph objects
+   for one graph id, in any order.  In the model the only state is the store content: HSet s' = the store content
+   becomes s' (any mutation through any object), HAsk a = a question (any of the seven query kinds, answer_of).
+   The three statements are what "query results depend only on the current store content, not on earlier
+   queries" means; they hold of the model by construction (it has no other state) and the correspondence stream
+   `history` checks that the code behaves like the model (two live objects, interleaved mutations, repeated
+   identical questions, every answer compared on the store content at that moment). *)
+Theorem C06_history_answer_from_current_store : forall V s pre a post,
+  run V s (pre ++ HAsk a :: post) = run V s pre ++ answer_of V (current s pre) a :: run V (current s pre) post.
+Proof. exact run_ask. Qed.
+Print Assumptions C06_history_answer_from_current_store.
+
+Theorem C06_history_earlier_questions_irrelevant : forall pre s, current s pre = current s (filter is_set pre).
+Proof. exact current_ignores_asks. Qed.
+Print Assumptions C06_history_earlier_questions_irrelevant.
+
+Theorem C06_history_repeat_same_answer : forall V s pre a mid,
+  forallb (fun h => negb (is_set h)) mid = true ->
+  run V s (pre ++ HAsk a :: mid ++ [HAsk a]) =
+  run V s pre ++ answer_of V (current s pre) a :: run V (current s pre) mid ++ [answer_of V (current s pre) a].
+Proof. exact repeat_same. Qed.
+Print Assumptions C06_history_repeat_same_answer.
+
+(* ask, change the store, ask the identical question again: the second answer is that of the NEW content *)
+Example C06_history_example :
+  run std_vocab ex_store [HAsk (AHops 1 1 5 [] 100); HSet cross_store; HAsk (AHops 1 1 5 [] 100); HAsk (AHops 1 2 1 [] 100);
+                          HSet ex_store; HAsk (AHops 1 1 5 [] 100)]
+  = [RIds (Ok [1; 2; 3; 5]); RIds Err; RIds (Ok [2; 1]); RIds (Ok [1; 2; 3; 5])].
+Proof. vm_compute. reflexivity. Qed.
 
 (* ------------------------------------------------------------------------------------------------- *)
 (* derived helpers *)
